@@ -565,8 +565,24 @@ def run_c16(args):
             break
     chk.extra["negative_scenario_rejected"] = rejected
     if not rejected:
-        raise vf.Infra("negative scenario (shared sources validated lazily by workers) was accepted: the Validate "
-                       "obligation is vacuous")
+        # Accepted: either the obligation is vacuous (the hook events do not reach TLC: an infrastructure failure), or
+        # this library never validates lazily (setters / constructors compute the derived state at once), in which case
+        # a first use by several threads writes nothing and there is nothing to reject.
+        import json as _json
+        shared_imgs, lazy, anyv = set(), 0, 0
+        for ln in open(negm):
+            if ln.startswith('{"e":"Shared"'):
+                shared_imgs = set(tuple(i) for i in _json.loads(ln)["imgs"])
+            elif ln.startswith('{"e":"Validate"'):
+                anyv += 1
+                ev = _json.loads(ln)
+                if ev["dirty"] and ev["tid"] != 0 and tuple(ev["img"]) in shared_imgs:
+                    lazy += 1
+        if lazy or not anyv:
+            raise vf.Infra("negative scenario (shared sources validated lazily by workers) was accepted although %d "
+                           "worker validations of dirty SHARED images were recorded (%d Validate events): the Validate "
+                           "obligation is vacuous" % (lazy, anyv))
+        chk.extra["negative_scenario_note"] = ("not rejected: no worker ever found a shared image dirty (%d Validate events) - this library computes derived image state eagerly" % anyv)
     chk.extra["rule"] = ("evaluations = request executions in threaded runs; distinct non-trivial = distinct lookup keys")
     chk.assumptions += ["schedules explored on the real library are those the OS produced in these runs; all interleavings "
                         "are explored on the DispatchMC model only",
